@@ -839,6 +839,7 @@ class FragmentSender(object):
 
         self.fragments = []
         self.acks = []
+        self.seqs = [] # message seqnum of each fragment
 
     def build(self, payload):
 
@@ -874,7 +875,9 @@ class FragmentSender(object):
             cbk = lambda success, idx=index: self.callback(idx, success)
             payload = struct.pack(">HHH", self.frag_id, 1 + index, len(self.fragments))
             payload += self.fragments[index]
-            self.conn._send_type(PacketType.APP_FRAGMENT, payload, self.retry, cbk)
+            # reuse the message seqnum so that the receiver can detect
+            # a fragment that it has already received
+            self.conn._send_type(PacketType.APP_FRAGMENT, payload, self.retry, cbk, self.seqs[index])
         else:
             self.acks[index] = success
 
@@ -1071,6 +1074,7 @@ class ConnectionBase(object):
 
             for frag, cbk in sender.build(payload):
                 self._send_type(PacketType.APP_FRAGMENT, frag, retry, cbk)
+                sender.seqs.append(self.seq_message)
 
             self.pending_fragments[self.seq_fragment] = sender
 
@@ -1106,13 +1110,15 @@ class ConnectionBase(object):
             if t0 - self.pending_acks[seqnum] >= self.outgoing_timeout:
                 self._handle_timeout(seqnum)
 
-    def _send_type(self, pkt_type, payload, retry, callback):
-        self.seq_message += 1
+    def _send_type(self, pkt_type, payload, retry, callback, seq_message=None):
+        if seq_message is None:
+            self.seq_message += 1
+            seq_message = self.seq_message
 
         if retry == RetryMode.RETRY_ON_TIMEOUT:
-            callback = RetrySender(self, self.seq_message, pkt_type, payload, callback)
+            callback = RetrySender(self, seq_message, pkt_type, payload, callback)
 
-        msg = PendingMessage(self.seq_message, pkt_type, payload, callback, retry)
+        msg = PendingMessage(seq_message, pkt_type, payload, callback, retry)
 
         self.outgoing_messages.append(msg)
         self.stats.sent += 1
